@@ -19,8 +19,8 @@ from mc.engine import e2
 from mc.engine.core import Collector, Result, Violation
 
 PLAN = {
-    "quick": [("M1", 3), ("M2", 3), ("M3", 3), ("M4", 3), ("M5", 3)],
-    "thorough": [("M1", 4), ("M2", 4), ("M3", 4), ("M4", 4), ("M5", 4)],
+    "quick": [("M1", 3), ("M2", 3), ("M3", 3), ("M4", 3), ("M5", 3), ("M4b", 4)],
+    "thorough": [("M1", 4), ("M2", 4), ("M3", 4), ("M4", 4), ("M5", 4), ("M4b", 6)],
 }
 
 
